@@ -457,8 +457,11 @@ class TaskDef:
             # No parents at any point
             return True
         if self.sequential:
-            # Implicit parents
-            return False
+            # Implicit parent: the previous instance (unless before cutoff)
+            for seq in self.sequences:
+                prev = seq.get_nearest_prev_point(point)
+                if prev is not None and prev >= cutoff:
+                    return False
         parent_points = self.get_parent_points(point)
         return (
             not parent_points
